@@ -56,7 +56,7 @@ theorem step_pt {cfg : Cfg} {m : M} {l : L} (h : PT m) (hl : PlainText l) :
     have e3 := handleDiffHeaderDiff_not_mine cfg (stepInit m l) l hl.no.diff
     have e4 := handleFileOperation_not_mine cfg (stepInit m l) l (by simp [hlt])
     have e5 := handleMinusLine_not_mine cfg (stepInit m l) l (by simp [minusLineTest, hlt])
-    have e6 := handlePlusLine_not_mine cfg (stepInit m l) l (by simp [plusLineTest, hlt])
+    have e6 := handlePlusLine_not_mine cfg (stepInit m l) l (by simp [plusLineTest, hnd])
     have e7 := handleHunkHeader_not_mine cfg (stepInit m l) l hl.no.hunkHeader
     have e8 := handleModeLine_not_mine cfg (stepInit m l) l hl.no.oldMode hl.no.newMode
     have e9 := handleMisc_not_mine cfg (stepInit m l) l hl.no.onlyIn hl.no.binary
